@@ -109,6 +109,8 @@ static const std::uint64_t K_i4_4[] = {B | 0x10, B | 0x20, B | 0x30, B | 0x40};
 static const std::uint64_t K_i16_5[] = {B | 0x10, B | 0x20, B | 0x30, B | 0x40, B | 0x50};
 static const std::uint64_t K_2lvl[] = {0x0100, 0x0101, 0x0200, 0x0201, 0x0202};
 static const std::uint64_t K_collapse[] = {0x01000000000000AAULL, 0x0200000000000001ULL, 0x0200000000000002ULL};
+// an inner node BELOW the root with a long key prefix (11 22 33 44 55 66) whose bytes all differ: prefix splits at depth > 0
+static const std::uint64_t K_deep[] = {0x0111223344556601ULL, 0x0111223344556602ULL, 0x0200000000000000ULL};
 
 static bool get1(db_t& d, std::uint64_t k, std::uint8_t& out) {
   auto r = d.get(k);
@@ -223,18 +225,19 @@ template <unsigned N, bool RETRY, bool FAULTS = true> static void fault_remove(c
 #define FC(name) \
   HARNESS(fins_##name) { fault_insert<sizeof(K_##name) / 8, false>(K_##name, nullptr, 0); } \
   HARNESS(frem_##name) { fault_remove<sizeof(K_##name) / 8, false>(K_##name, nullptr, 0); }
-FC(leaf) FC(i4_3) FC(i4_4) FC(i16_5) FC(2lvl) FC(collapse)
+FC(leaf) FC(i4_3) FC(i4_4) FC(i16_5) FC(2lvl) FC(collapse) FC(deep)
 // symbolic key, no fault: statistics / shape after one operation (C10)
 #define SC10(name) \
   HARNESS(sins_##name) { fault_insert<sizeof(K_##name) / 8, false, false>(K_##name, nullptr, 0); } \
   HARNESS(srem_##name) { fault_remove<sizeof(K_##name) / 8, false, false>(K_##name, nullptr, 0); }
-SC10(leaf) SC10(i4_3) SC10(i4_4) SC10(i16_5) SC10(2lvl) SC10(collapse)
+SC10(leaf) SC10(i4_3) SC10(i4_4) SC10(i16_5) SC10(2lvl) SC10(collapse) SC10(deep)
 // concrete keys, one per structural case (selected symbolically), symbolic fault position, WITH retry
 static const std::uint64_t C_leaf[] = {B | 0x08, B | 0x09, 0xFF02030405060708ULL, 0x0102FF0405060708ULL};                       // duplicate, last-byte split, first-byte split, mid split
 static const std::uint64_t C_i4_3[] = {B | 0x20, B | 0x25, B | 0x05, B | 0x35, 0x0102030405FF0700ULL, 0xFF02030405060700ULL};     // duplicate, add mid/front/back, prefix split mid / at byte 0
 static const std::uint64_t C_i4_4[] = {B | 0x25, B | 0x45, 0x01020304FF060700ULL};                                                // grow I4->I16, prefix split
 static const std::uint64_t C_i16_5[] = {B | 0x10, B | 0x50, B | 0x30, B | 0x60};                                                  // removes that shrink I16->I4; absent
 static const std::uint64_t C_2lvl[] = {0x0100, 0x0202, 0x0300, 0x0102, 0x010000, 0x0203};
+static const std::uint64_t C_deep[] = {0x0111229900000000ULL, 0x0111223344559900ULL, 0x0199000000000000ULL, 0x0111223344556603ULL, 0x0111223344556601ULL, 0x0200000000000000ULL};   // split after 2 / 5 / 0 prefix bytes, add, duplicates / removes
 static const std::uint64_t C_collapse[] = {0x01000000000000AAULL, 0x0200000000000001ULL, 0x0300000000000000ULL, 0x02000000000000FFULL};
 template <unsigned N, unsigned I, unsigned M> static void rins(const std::uint64_t (&keys)[N], const std::uint64_t (&ck)[M]) { if constexpr (I < M) fault_insert<N, true>(keys, &ck[I], 1); else { (void)in_u8(); WITNESS(); } }
 template <unsigned N, unsigned I, unsigned M> static void rrem(const std::uint64_t (&keys)[N], const std::uint64_t (&ck)[M]) { if constexpr (I < M) fault_remove<N, true>(keys, &ck[I], 1); else { (void)in_u8(); WITNESS(); } }
@@ -242,7 +245,7 @@ template <unsigned N, unsigned I, unsigned M> static void rrem(const std::uint64
   HARNESS(rins_##name##_##I) { rins<sizeof(K_##name) / 8, I>(K_##name, C_##name); } \
   HARNESS(rrem_##name##_##I) { rrem<sizeof(K_##name) / 8, I>(K_##name, C_##name); }
 #define FR(name) FR1(name, 0) FR1(name, 1) FR1(name, 2) FR1(name, 3) FR1(name, 4) FR1(name, 5)
-FR(leaf) FR(i4_3) FR(i4_4) FR(i16_5) FR(2lvl) FR(collapse)
+FR(leaf) FR(i4_3) FR(i4_4) FR(i16_5) FR(2lvl) FR(collapse) FR(deep)
 
 // over-long value: length error before anything is allocated
 template <bool PRESENT, int SEL> static void too_long() {
